@@ -1,4 +1,5 @@
 import FeedVerif.Model.DictDriver
+import FeedVerif.Model.UriDriver
 /-!
 Model driver: one operation per input line `<model> <op> <fields…>`, one canonical output line per
 operation.  Run with `lake env lean --run Main.lean`.
@@ -11,6 +12,7 @@ structure DState where
 def stepLine (st : DState) (line : String) : DState × String :=
   match (line.trimAscii.toString.splitOn " ").filter (· ≠ "") with
   | "dict" :: rest => let (s, o) := Dict.driverStep st.dict rest; ({ st with dict := s }, o)
+  | "uri" :: rest => (st, Uri.driverStep rest)
   | _ => (st, "bad-model")
 
 partial def loop (h : IO.FS.Stream) (out : IO.FS.Stream) (st : DState) : IO Unit := do
